@@ -403,6 +403,12 @@ func c06Loopback(c *Ctx) {
 				}
 				f.fm.ResetLog()
 				recvBefore := total()
+				twin := i%10 == 3 && !op.Discovery && dv.state != "refusing" && replyClass == "prompt" && fixedPort == 0 && op.Name != "SetTime"
+				wantN := 1
+				if twin {
+					wantN = 2
+					c.Res.Count("loopback:cases-with-the-identical-call-from-two-goroutines", 1)
+				}
 				var out rm.Outcome
 				start := time.Now()
 				if op.Discovery {
@@ -410,7 +416,19 @@ func c06Loopback(c *Ctx) {
 						out.Err = err.Error()
 					}
 				} else {
+					// every tenth case: the identical call from a second goroutine at the same time - two calls, two requests
+					var twinDone chan struct{}
+					if twin {
+						twinDone = make(chan struct{})
+						go func() {
+							defer close(twinDone)
+							adapter.SafeCall(u, op.Name, serial, a, aux)
+						}()
+					}
 					out, _ = adapter.SafeCall(u, op.Name, serial, a, aux)
+					if twin {
+						<-twinDone
+					}
 				}
 				elapsed := time.Since(start)
 				// quiescence: wait (bounded) until the request has been logged, then a little longer for stray duplicates
@@ -488,8 +506,21 @@ func c06Loopback(c *Ctx) {
 					c.Res.Inconcl("TCP connection to the expected endpoint not established within the timeout (host stalled?): " + out.Err)
 					continue
 				}
-				if len(recvs) != 1 {
-					c.Res.Violate(key+":count", fmt.Sprintf("%s (controller %s, protocol %q, bind %s): %d requests arrived at the farm, expected exactly one at %s %s: %v", op.Name, dv.state, dv.proto, cfg.Bind, len(recvs), wantProto, wantEP.Addr, desc), wv, caseNo)
+				if twin && len(recvs) == 1 {
+					time.Sleep(20 * time.Millisecond) // the second goroutine's request may be logged a little later
+					recvs = recvs[:0]
+					for _, e := range f.fm.Events() {
+						if e.Kind == "recv" {
+							recvs = append(recvs, e)
+						}
+					}
+				}
+				if len(recvs) != wantN {
+					c.Res.Violate(key+":count", fmt.Sprintf("%s (controller %s, protocol %q, bind %s): %d requests arrived at the farm, expected exactly %d (calls made: %d) at %s %s: %v", op.Name, dv.state, dv.proto, cfg.Bind, len(recvs), wantN, wantN, wantProto, wantEP.Addr, desc), wv, caseNo)
+					continue
+				}
+				if twin && (recvs[1].Endpoint != wantEP.Index || recvs[1].Proto != wantProto || string(recvs[1].Data) != string(wantReq)) {
+					c.Res.Violate(key+":endpoint", fmt.Sprintf("%s (two identical concurrent calls): the second request arrived at %s %s", op.Name, recvs[1].Proto, f.fm.Endpoints[recvs[1].Endpoint].Addr), wv, caseNo)
 					continue
 				}
 				e := recvs[0]
